@@ -186,6 +186,10 @@ def nodepath_cases(run, n):
         for i in ids[2:]:
             if rng.random() < 0.35:
                 names[i] = names[rng.choice(ids[1:ids.index(i)])]
+        # a node of another class may bear the root's name (an object and its type are often called alike): the root is the Object
+        others = [x for x in ids[1:] if x % 7 != 0]
+        if others and rng.random() < 0.3:
+            names[rng.choice(others)] = names[ids[0]]
         reftypes = ["HasComponent", "Organizes", "HasProperty"]
         tsel = rng.sample(reftypes[:2], rng.randint(1, 2))
         tree = [[ids[i - 1] if deep and rng.random() < 0.9 else ids[rng.randrange(i)], ids[i], rng.choice(tsel)] for i in range(1, k)]
